@@ -103,3 +103,65 @@ Theorem c01_shown_by_every_renderer : forall (W : list N -> nat) (e : env) (json
   /\ map (option_map (map vc_text)) (v_rows (hview W e json h)) = map (option_map (map (documented_text e))) (hist_rows h).
 Proof. exact hview_texts. Qed.
 Print Assumptions c01_shown_by_every_renderer.
+
+(* A WHOLE PROCESS (Model/CellProc.v, Spec/CellHist.v).  A history is any
+   sequence of NewCell(item) / cells[k].Update() / "the caller changes its
+   objects".  After it, every cell of the process - the first as well as the
+   thousandth - shows the documented text of its own item in the state of the
+   objects in which that very cell last read it (hist_reads: at NewCell or at
+   its own last Update), and still holds its item: what the process put into
+   other cells before (other items, other types, other types of the same
+   name), and the updates of other cells, do not enter. *)
+From Tab Require Import Model.CellProc Spec.CellHist Spec.MethodSet Proofs.CellProcProofs.
+
+Theorem c01_process : forall (W : list N -> nat) (e0 : env) (h : list pop),
+  map cell_text (p_cells (prun W e0 h)) = map expected_text (hist_reads e0 h)
+  /\ map cell_item (p_cells (prun W e0 h)) = map fst (hist_reads e0 h).
+Proof. exact process_texts. Qed.
+Print Assumptions c01_process.
+
+(* "an item OFFERING String()": which methods an item offers is Go's method
+   set of its dynamic type (Spec/MethodSet.v).  For a named type whose five
+   methods are declared on the value receiver, the pointer receiver or not at
+   all, held by value or by pointer, the cell's text follows the precedence
+   over the methods that are in the method set ... *)
+Theorem c01_method_set : forall (W : list N -> nat) (e : env) id d s h,
+  e id = obj_of d s h -> cell_text (new_cell W e (IObj id)) = method_set_text d s h.
+Proof. exact method_set_cell_text. Qed.
+Print Assumptions c01_method_set.
+
+(* ... so a VALUE none of whose text methods is declared on the value receiver
+   reads as fmt's %v of the value, whatever its pointer type offers (url.URL,
+   big.Int, bytes.Buffer values; a struct whose String is declared on the pointer receiver) ... *)
+Theorem c01_value_ignores_pointer_methods : forall (W : list N -> nat) (e : env) id d s,
+  e id = obj_of d s ByValue ->
+  r_string d <> OnValue -> r_gostring d <> OnValue -> r_error d <> OnValue ->
+  cell_text (new_cell W e (IObj id)) = s_fmt_value s.
+Proof. exact value_ignores_pointer_methods. Qed.
+Print Assumptions c01_value_ignores_pointer_methods.
+
+(* ... and a POINTER offers the methods of both receivers. *)
+Theorem c01_pointer_offers_both : forall (W : list N -> nat) (e : env) id d s,
+  e id = obj_of d s ByPointer ->
+  cell_text (new_cell W e (IObj id)) =
+    match r_string d, r_gostring d, r_error d with
+    | NoMethod, NoMethod, NoMethod => s_fmt_pointer s
+    | NoMethod, NoMethod, _ => s_error s
+    | NoMethod, _, _ => s_gostring s
+    | _, _, _ => s_string s
+    end.
+Proof. exact pointer_offers_both. Qed.
+Print Assumptions c01_pointer_offers_both.
+
+(* non-vacuity: a type with String() on the pointer receiver and Error() on
+   the value receiver; two cells and a mutation in between, one Update *)
+Example c01_example_process :
+  let W := fun s : list N => length s in
+  let d := mkDecl OnPointer NoMethod OnValue NoMethod NoMethod in
+  let s1 := mkTS [83] [] [69] 0 0 [118] [38; 118] None None in
+  let s2 := mkTS [115] [] [101] 0 0 [118] [38; 118] None None in
+  let e1 := fun id : N => if N.eqb id 1 then obj_of d s1 ByValue else obj_of d s1 ByPointer in
+  let e2 := fun id : N => if N.eqb id 1 then obj_of d s2 ByValue else obj_of d s2 ByPointer in
+  map cell_text (p_cells (prun W e1 [PNew (IObj 1); PNew (IObj 2); PMutate e2; PUpdate 1%nat; PNew (IObj 1)]))
+  = [[69]; [115]; [101]].
+Proof. vm_compute. reflexivity. Qed.
